@@ -49,6 +49,11 @@ class C01(Prop):
                 elif where == "end":
                     vals.append((sizes[nm], sizes[nm], vals[-1][2]))
                     tags.add("zero_length_at_end")
+            if len(names) > 1 and k % 4 == 1:
+                # read back the way the converters and the statistics tools read: the file on disk, the original reader plus readers
+                # reopened from it, each on its own thread, all at once
+                o["reader"] = "reopenedmt"
+                tags.add("read_back_by_concurrent_reopened_readers")
             lines = [bbgen.opt_line(o)] + bbgen.wig_lines(names, sizes, data, extra_sizes=[("unusedChrom", 12345)] if r.chance(1, 3) else ())
             for nm in names:
                 lines.append(f"Q iv {nm} 0 {sizes[nm]}")
@@ -137,6 +142,8 @@ class C01(Prop):
         bad = bbgen.basic_ok(il)
         if bad:
             return bad
+        if "CONC differ" in il:
+            return "readers reopened from the written file and used concurrently (each on its own thread, together with the original) do not all return the written values"
         want = "CHROMS " + " ".join(f"{n}:{i}:{sizes[n]}" for i, n in enumerate(order))
         got = bbgen.first_line(il, "CHROMS")
         if got != want:
